@@ -32,3 +32,4 @@ PROP = {
                                  "false-alarm probability of the order of 1e-6 per run across seeds"],
 }
 PROP["level_text"] += " Since then: about four thousand (thorough 1.6e5) calls per run, the zero function and constants down to 1e-250, the region vector handed to the library must read the same during and after every call, and three in ten history targets are narrow off-centre peaks that are exactly zero on one side of the midpoint in every dimension (Miser's fallback branch, Vegas iterations without information)."
+PROP["level_text"] += ' Histories also contain direct use of Sample_Uniform on other intervals and a Miser call left through an exception; regions 1e-12 of their offset wide are sampled 3e5 times each; a plain Monte-Carlo integrand that runs another integration must find its own point unchanged.'
